@@ -3,14 +3,17 @@ package imgworld
 import (
 	"encoding/json"
 	"fmt"
+	"io/fs"
 	"os"
 	"path"
 	"path/filepath"
 	"strings"
+	"syscall"
 	"testing"
 
 	"github.com/google/osv-scalibr/artifact/image/layerscanning/image"
 	"github.com/google/osv-scalibr/artifact/image/unpack"
+	"github.com/google/osv-scalibr/verifshim"
 	"pgregory.net/rapid"
 	"verif/sim"
 )
@@ -28,11 +31,79 @@ type C06 struct{}
 type C06Scenario struct {
 	Op    string    `json:"op"`
 	Image ImageSpec `json:"image"`
+	// OSFaults (tier 2): the K-th call of Op inside image.go / unpack.go fails with Errno; for
+	// Op "Copy" N bytes are copied first (a disk that fills up in the middle of a write).
+	OSFaults []OSFaultPlan `json:"os_faults,omitempty"`
+}
+
+// OSFaultPlan is one planned OS-call failure.
+type OSFaultPlan struct {
+	Op    string `json:"op"` // MkdirTemp | Mkdir | MkdirAll | OpenFile | Create | WriteFile | Symlink | Copy
+	K     int    `json:"k"`  // 1-based occurrence of Op in the run
+	Errno string `json:"errno"`
+	N     int64  `json:"n,omitempty"`
+}
+
+// the OS calls that occur on the two code paths
+var osFaultOpsLoad = []string{"MkdirTemp", "Mkdir", "MkdirAll", "OpenFile", "OpenFile", "Copy", "Copy"}
+var osFaultOpsUnpack = []string{"MkdirTemp", "MkdirAll", "MkdirAll", "WriteFile", "WriteFile", "Symlink", "Copy"}
+
+func errnoOf(s string) error {
+	switch s {
+	case "EMFILE":
+		return syscall.EMFILE
+	case "EACCES":
+		return syscall.EACCES
+	}
+	return syscall.ENOSPC
+}
+
+// installOSFaults arms the build-time redirected os.* / io.Copy calls of the loader and the
+// unpacker; the returned function disarms them and reports what fired.
+func installOSFaults(plans []OSFaultPlan, out *sim.Outcome) func() int {
+	if len(plans) == 0 {
+		return func() int { return 0 }
+	}
+	seen := map[string]int{}
+	fired := 0
+	hit := func(op string) *OSFaultPlan {
+		seen[op]++
+		for i := range plans {
+			if plans[i].Op == op && plans[i].K == seen[op] {
+				fired++
+				out.Count("fault_fired_os_"+op, 1)
+				return &plans[i]
+			}
+		}
+		return nil
+	}
+	for _, p := range plans {
+		out.Count("fault_planned_os_"+p.Op, 1)
+	}
+	verifshim.OSFault = func(op, path string) error {
+		if op == "Remove" || op == "RemoveAll" {
+			return nil // clean-up itself is never made to fail: its failure could not be cleaned up
+		}
+		if p := hit(op); p != nil {
+			return &fs.PathError{Op: strings.ToLower(op), Path: path, Err: errnoOf(p.Errno)}
+		}
+		return nil
+	}
+	verifshim.CopyFault = func() (int64, error) {
+		if p := hit("Copy"); p != nil {
+			return p.N, errnoOf(p.Errno)
+		}
+		return 0, nil
+	}
+	return func() int {
+		verifshim.OSFault, verifshim.CopyFault = nil, nil
+		return fired
+	}
 }
 
 func (C06) ID() string { return "C06" }
 func (C06) Rule() string {
-	return "(image) 1-3 layer archives whose entry names and link targets are assembled from '..', '.', '', '/', a 300-byte component, names of the sandbox's decoy siblings (target-evil, targetX: string prefix of the target), outside, cwd, tmp, and the names of links declared earlier; regular, directory, symlink and hard-link entries in any order and layer, plus seeded attack sequences (link chain 'up -> .', 'esc -> up/..' then a write 0-2 levels below it; file then entry beneath it; link with empty target; dot-dot names into decoys); faults: layer reader error at byte k, truncated archive; entry points FromV1Image, FromTarball (+CleanUp), UnpackSquashed, UnpackSquashedFromTarball into sandbox/target; the WHOLE jail (target, decoys, outside, cwd, TMPDIR, harness inputs, 8 directory levels above) is snapshotted (type, link target, size, mode, hash) before and after every call; evaluation = one call sequence on one scenario; non-trivial = at least one entry name or link target lexically or through a link leaves the root, or a fault fired; distinct = distinct scenario JSON"
+	return "(image) 1-3 layer archives whose entry names and link targets are assembled from '..', '.', '', '/', a 300-byte component, names of the sandbox's decoy siblings (target-evil, targetX: string prefix of the target), outside, cwd, tmp, and the names of links declared earlier; regular, directory, symlink and hard-link entries in any order and layer, plus seeded attack sequences (link chain 'up -> .', 'esc -> up/..' then a write 0-2 levels below it; file then entry beneath it; link with empty target; dot-dot names into decoys); faults: layer reader error at byte k, truncated archive, and (tier 2, 1 in 3 scenarios) 1-2 OS-call failures inside image.go / unpack.go through the build-time overlay: the k-th MkdirTemp / Mkdir / MkdirAll / OpenFile / Create / WriteFile / Symlink fails with ENOSPC / EMFILE / EACCES, io.Copy fails after n bytes; entry points FromV1Image, FromTarball (+CleanUp), UnpackSquashed, UnpackSquashedFromTarball into sandbox/target; the WHOLE jail (target, decoys, outside, cwd, TMPDIR, harness inputs, 8 directory levels above) is snapshotted (type, link target, size, mode, hash) before and after every call; evaluation = one call sequence on one scenario; non-trivial = at least one entry name or link target lexically or through a link leaves the root, or a fault (reader or OS call) fired; distinct = distinct scenario JSON"
 }
 
 var c06Segs = []string{"..", "..", ".", "", "a", "b", "up", "esc", "sub", "target-evil", "targetX", "outside", "cwd", "tmp", "target", "keep.txt", "victim.txt", "poc.txt", "LONG", "n"}
@@ -151,6 +222,16 @@ func (C06) Gen(rt *rapid.T, tier string) any {
 		}
 		sc.Image.Layers = append(sc.Image.Layers, l)
 	}
+	if rapid.IntRange(0, 2).Draw(rt, "os_faults") == 0 {
+		for i, n := 0, rapid.IntRange(1, 2).Draw(rt, "n_os_faults"); i < n; i++ {
+			ops := osFaultOpsLoad
+			if strings.HasPrefix(sc.Op, "unpack") {
+				ops = osFaultOpsUnpack
+			}
+			sc.OSFaults = append(sc.OSFaults, OSFaultPlan{Op: rapid.SampledFrom(ops).Draw(rt, "os.op"), K: rapid.SampledFrom([]int{1, 1, 2, 2, 3, 4}).Draw(rt, "os.k"),
+				Errno: rapid.SampledFrom([]string{"ENOSPC", "EMFILE", "EACCES"}).Draw(rt, "os.errno"), N: int64(rapid.IntRange(0, 12).Draw(rt, "os.n"))})
+		}
+	}
 	if sc.Op == "v1" || sc.Op == "tarball" {
 		genHistory(rt, &sc.Image, nl, sc.Op == "v1")
 	}
@@ -183,6 +264,9 @@ func (C06) Run(t *testing.T, scAny any) *sim.Outcome {
 	sc := scAny.(*C06Scenario)
 	out := &sim.Outcome{Executions: 1}
 	ctxs := fmt.Sprintf("op=%s %s", sc.Op, sc.Image.String())
+	if len(sc.OSFaults) > 0 {
+		ctxs = fmt.Sprintf("os-faults=%v %s", sc.OSFaults, ctxs)
+	}
 	if len(ctxs) > 1500 {
 		ctxs = ctxs[:1500] + "..."
 	}
@@ -241,11 +325,15 @@ func (C06) Run(t *testing.T, scAny any) *sim.Outcome {
 		before := sb.Snapshot()
 		var img *image.Image
 		var simg *SimImage
+		disarm := installOSFaults(sc.OSFaults, out)
 		if sc.Op == "tarball" {
 			img, err = image.FromTarball(tarPath, image.DefaultConfig())
 		} else {
 			simg = NewSimImage(&sc.Image)
 			img, err = image.FromV1Image(simg, image.DefaultConfig())
+		}
+		if disarm() > 0 {
+			escaping = true
 		}
 		after := sb.Snapshot()
 		if simg != nil {
@@ -289,6 +377,8 @@ func (C06) Run(t *testing.T, scAny any) *sim.Outcome {
 			}
 		}
 		before := sb.Snapshot()
+		disarm := installOSFaults(sc.OSFaults, out)
+		defer disarm()
 		if sc.Op == "unpack" {
 			simg := NewSimImage(&sc.Image)
 			err = u.UnpackSquashed(sb.Target, simg)
@@ -300,6 +390,9 @@ func (C06) Run(t *testing.T, scAny any) *sim.Outcome {
 			}
 		} else {
 			err = u.UnpackSquashedFromTarball(sb.Target, tarPath)
+		}
+		if disarm() > 0 {
+			escaping = true
 		}
 		hist = append(hist, fmt.Sprintf("unpack: %v", err == nil))
 		if err != nil {
